@@ -1,8 +1,9 @@
 PROP = dict(level="exploration", parts=[
-    py("tables", "C19_tables.py", shards=(16, 16), timeout=dict(quick=900, thorough=3000)),
+    py("tables", "C19_tables.py", shards=(16, 16), timeout=dict(quick=1500, thorough=5400)),
     py("direct", "C19_tables.py", args=["--mode", "direct"], shards=(4, 4)),
+    py("calculus", "C19_calculus.py", ninja=["votca_tools", "votca_csg", "csg_resample"], shards=(8, 8)),
 ])
 TEXT = dict(engine="bsx", design_ref="DESIGN.md §3 C19",
-   technique="exhaustive enumeration of small tables x documented options; the unmodified Perl scripts of the source tree are executed and compared with closed-form Python oracles derived from their help texts",
-   level_text="placeholder",
-   level_note="placeholder")
+   technique="exhaustive enumeration of small tables x documented script options; the unmodified Perl scripts of the source tree (and the built csg_resample for differentiation) are executed and compared with closed-form Python oracles derived from their help texts",
+   level_text="Every table of 3 rows (and of 4 rows in the thorough tier; 7/10/13-row tables within 2 cells of base tables) over y in {0,1e-11,0.5,1,2} x flag in {i,o,u} is fed to table_linearop, table_scale, table_integrate, potential_shift, table_smooth, table_extrapolate, dist_boltzmann_invert, update_ibi_pot (all target/current/potential-flag triples) and table_combine (all pairs of value vectors, 8 operations) under each documented option; values, grid and flag column of the output are compared with the formula of the help text (allowed sets where the text leaves a choice). integrate/differentiate (csg_resample linear, cubic, akima) are checked to be inverse within derived discretisation bounds.",
+   level_note="Trusted: the Python oracles (one short function per script), perl's %.15g printing (1e-12 relative tolerance). Coverage is over the stated alphabets and sizes only (the statement's sizes up to 1000 and arbitrary reals are not enumerated); the bulk runs the script text through `do FILE` in a persistent perl, a reduced set and every replay through a fresh `perl script` process.")
